@@ -143,13 +143,13 @@ Qed.
 
 Lemma remove_lt_bst t b : bst t -> bst (snd (remove_lt t b)).
 Proof.
-  induction 1 as [|l k ch r Hl IHl Hr IHr Hlt Hgt]; cbn; [constructor|].
+  induction 1 as [|l k ch r Hl IHl Hr IHr Hlt Hgt]; [cbn; constructor|].
   destruct l as [|ll lk lch lr].
-  - destruct (k <? b); cbn; auto. constructor; auto.
+  - cbn. destruct (k <? b); cbn; auto. constructor; auto.
   - remember (Node ll lk lch lr) as l eqn:El.
     assert (Hrm : remove_lt (Node l k ch r) b = let '(res, l') := remove_lt l b in (res, Node l' k ch r)).
     { subst l. reflexivity. }
-    cbn [remove_lt] in Hrm |- *. rewrite <- El in *.
+    rewrite Hrm.
     destruct (remove_lt l b) as [res l'] eqn:Er. cbn in *.
     constructor; auto. intros c Hc. apply Hlt.
     apply (remove_lt_subset l b). now rewrite Er.
@@ -206,7 +206,7 @@ Lemma ss_app (l1 l2 : list (N * list nat)) :
   (forall a c, In a l1 -> In c l2 -> klt a c) -> StronglySorted klt (l1 ++ l2).
 Proof.
   induction 1 as [|a l H IH Hf]; cbn; auto. intros H2 Hx. constructor.
-  - apply IH; auto. intros; apply Hx; cbn; auto.
+  - apply IH; auto; intros; apply Hx; cbn; auto.
   - rewrite Forall_app. split; auto. rewrite Forall_forall. intros c Hc. apply Hx; cbn; auto.
 Qed.
 
